@@ -15,10 +15,11 @@ Open Scope N_scope.
 
 (* after any history: the target family (if target info is set) followed by the families of every registered
    collector exactly once, in registration order, nothing from unregistered ones - where "registered, in
-   registration order" is computed from the calls and whether they raised, nothing else *)
-Theorem C07_collect_exact : forall env a ops,
-  let tr := trace env (empty_reg a) ops in
-  collect env (run env (empty_reg a) ops)
+   registration order" is computed from the calls and whether they raised, nothing else; the collectors may change
+   during the history (run_dyn: one environment per step), env is what they are when collect() runs *)
+Theorem C07_collect_exact : forall env a eops,
+  let tr := trace_dyn (empty_reg a) eops in
+  collect env (run_dyn (empty_reg a) eops)
     = target_family (spec_labels [] tr) ++ flat_map (fun c => c_fams (env c)) (spec_keys [] tr)
   /\ NoDup (spec_keys [] tr).
 Proof. exact collect_exact_history. Qed.
@@ -30,7 +31,7 @@ Theorem C07_collect_keys : forall env r,
 Proof. exact collect_keys. Qed.
 Print Assumptions C07_collect_keys.
 
-Theorem C07_keys_step : forall env r o, Inv env r ->
+Theorem C07_keys_step : forall env r o, Inv r ->
   map fst (c2n (fst (step env r o))) = spec_step (map fst (c2n r)) o (snd (step env r o))
   /\ ti (fst (step env r o)) = spec_ti (ti r) o (snd (step env r o)).
 Proof. exact (fun env r o H => conj (keys_step env r o H) (ti_step env r o)). Qed.
@@ -49,14 +50,14 @@ Proof. exact restricted_metric_none. Qed.
 Print Assumptions C07_restricted_metric_none.
 
 (* the restricted registry yields exactly the filter of the full collection (as a multiset of families) *)
-Theorem C07_restricted_is_filter : forall env r ns, Inv env r ->
+Theorem C07_restricted_is_filter : forall env r ns, Inv r ->
   (forall c, registered r c -> well_described env r c) ->
   Permutation (snd (restricted env r ns)) (filter_collection ns (collect env r)).
 Proof. exact restricted_is_filter. Qed.
 Print Assumptions C07_restricted_is_filter.
 
 (* names are a set: order and repetition in the argument of restricted_registry do not matter *)
-Theorem C07_restricted_depends_on_name_set : forall env r ns ns', Inv env r ->
+Theorem C07_restricted_depends_on_name_set : forall env r ns ns', Inv r ->
   (forall c, registered r c -> well_described env r c) -> (forall n, In n ns <-> In n ns') ->
   Permutation (snd (restricted env r ns)) (snd (restricted env r ns'))
   /\ forall c, In c (fst (restricted env r ns)) <-> In c (fst (restricted env r ns')).
@@ -64,13 +65,13 @@ Proof. exact restricted_depends_on_name_set. Qed.
 Print Assumptions C07_restricted_depends_on_name_set.
 
 (* without well_described it still never yields anything outside that filter *)
-Theorem C07_restricted_subset_partial : forall env r ns f, Inv env r ->
+Theorem C07_restricted_subset_partial : forall env r ns f, Inv r ->
   In f (snd (restricted env r ns)) -> In f (filter_collection ns (collect env r)).
 Proof. exact restricted_subset. Qed.
 Print Assumptions C07_restricted_subset_partial.
 
 (* collect() is invoked exactly on the registered collectors claiming one of the names, once each *)
-Theorem C07_restricted_calls_only_claimants : forall env r ns, Inv env r ->
+Theorem C07_restricted_calls_only_claimants : forall env r ns, Inv r ->
   NoDup (fst (restricted env r ns))
   /\ forall c, In c (fst (restricted env r ns)) <-> registered r c /\ exists n, In n ns /\ claims r c n.
 Proof. exact restricted_calls_only_claimants. Qed.
